@@ -3,6 +3,7 @@ from .common import jobs_for
 LEVEL = 'proof'
 LEVEL_TEXT = 'every face value of arithmeticMean, linearMean, harmonicMean, geometricMean and upwindMean is proved equal to its specification in the two adjacent cell values and cell widths, for a symbolic face on every axis of every grid (the 1-D loops are summarised by generic iteration); between-neighbours, constants, harmonic<=arithmetic, exactness of linearMean on linear fields, donor / boundary / zero-velocity cases of upwindMean, two-cell support, zeros'
 LEVEL_NOTE = 'geometric mean: exp/log uninterpreted with monotonicity and exp(log x)=x instantiated on the applications present; harmonic <= geometric <= arithmetic for the exp/log form is the weighted AM-GM-HM inequality (Mathlib lemma, DESIGN 2.5), not re-proved by SMT; 2-D/3-D geometricMean on exact zeros relies on IEEE log(0)/exp(-inf): bounded stand-in only'
+NOT_MACHINE_CHECKED = ['harmonic <= geometric <= arithmetic for the geometric mean in exp/log form: Lean lemmas geom_le_arith / harm_le_geom (weighted AM-GM from Mathlib); the SMT side proves that the traced term IS exp((w0 log a + w1 log b)/(w0+w1))', '2-D/3-D geometricMean on data with exact zeros relies on IEEE log(0) = -inf, exp(-inf) = 0: bounded stand-in (labelled bounded)']
 MODULES = ['contracts.means']
 TRUSTED = ['A1', 'A2', 'A5', 'A6', 'UF']
 
